@@ -1,4 +1,147 @@
-(* placeholder until the proofs land *)
-From FluentV Require Import Syntax.ParserModel.
-Theorem C05_placeholder : True.
-Proof. exact Logic.I. Qed.
+(* Props/C05.v — C05 "Runtime parser agrees with the full parser apart from comments".
+
+   Model: Syntax/ParserModel.v (`parse` = parser::parse, `parse_runtime` = parser::parse_runtime, both over the same
+   get_message / get_term / recover, as in the Rust code).  Proofs: Syntax/RuntimeAgree.v.
+   All theorems quantify over ALL byte strings `bs`; nothing is assumed about `bs` except where `wf_hash_lines`
+   is stated.  The `_any_fuel` forms are stronger: the two loops may run on different recursion budgets.      *)
+From FluentV Require Import Syntax.ParserModel Syntax.RuntimeAgree.
+Open Scope string_scope.
+
+(* ---- the vocabulary of the statements (definitions live in Syntax/RuntimeAgree.v; pinned here) ---- *)
+Example C05_def_messages_terms : forall body,
+  messages_terms body = filter (fun e => match e with Message _ _ _ _ | Term _ _ _ _ => true | _ => false end) body.
+Proof. reflexivity. Qed.
+Example C05_def_junks : forall body,
+  junks body = filter (fun e => match e with Junk _ => true | _ => false end) body.
+Proof. reflexivity. Qed.
+Example C05_def_strip_comment : forall e,
+  strip_comment e = match e with
+                    | Message id v a _ => Message id v a None
+                    | Term id v a _ => Term id v a None
+                    | _ => e
+                    end.
+Proof. reflexivity. Qed.
+(* an entry the runtime parser may return: a message or term without comment, or Junk *)
+Example C05_def_rt_entry : forall e,
+  rt_entry e <-> ((exists id v a, e = Message id v a None) \/ (exists id v a, e = Term id v a None)) \/
+                 (exists c, e = Junk c).
+Proof. intros e. reflexivity. Qed.
+(* every line that starts with '#' (at offset 0 or after LF; a lone CR is ordinary content) is
+   1-3 '#' followed by end of input, LF, CRLF, or a space and then anything *)
+Example C05_def_wf_hash_lines : forall bs, wf_hash_lines bs = wf_from true bs.
+Proof. reflexivity. Qed.
+Example C05_def_wf_from : forall line_start b r,
+  wf_from line_start (b :: r) =
+  (if line_start && N.eqb b 35 then wf_comment_line (b :: r) else true) && wf_from (N.eqb b 10) r.
+Proof. reflexivity. Qed.
+Example C05_def_wf_comment_line : forall l,
+  wf_comment_line l =
+  let h := scan_while (N.eqb 35) l in
+  Nat.leb h 3 &&
+  match skipn h l with
+  | [] => true
+  | b :: r => N.eqb b 32 || N.eqb b 10 || (N.eqb b 13 && match r with c :: _ => N.eqb c 10 | [] => false end)
+  end.
+Proof. reflexivity. Qed.
+
+(* ---- sentence 1: "For every input, the runtime parser returns exactly the messages and terms (same order,
+        same content, no comments) that the full parser returns." ---- *)
+Theorem C05_entries_agree : forall bs body errs body' errs',
+  parse bs = Done (body, errs) -> parse_runtime bs = Done (body', errs') ->
+  map strip_comment (messages_terms body) = messages_terms body'.
+Proof. exact RuntimeAgree.entries_agree. Qed.
+
+(* "no comments": the runtime result holds no comment entry and no attached comment *)
+Theorem C05_runtime_no_comments : forall bs body' errs',
+  parse_runtime bs = Done (body', errs') -> Forall rt_entry body'.
+Proof. exact RuntimeAgree.runtime_no_comments. Qed.
+
+(* ---- sentence 2: "When every '#' line of the input is a well-formed comment, the two also agree on all Junk
+        entries and on the complete error list" ---- *)
+Theorem C05_junk_agree : forall bs body errs body' errs',
+  wf_hash_lines bs = true ->
+  parse bs = Done (body, errs) -> parse_runtime bs = Done (body', errs') ->
+  junks body = junks body' /\ errs = errs'.
+Proof. exact RuntimeAgree.junk_agree. Qed.
+
+(* the same at arbitrary, possibly different, fuels of the two entry loops *)
+Theorem C05_entries_agree_any_fuel : forall bs n m body errs q body' errs' q',
+  parse_m bs n 0 = Ok (body, errs) q -> parse_runtime_m bs m 0 = Ok (body', errs') q' ->
+  map strip_comment (messages_terms body) = messages_terms body'.
+Proof. exact RuntimeAgree.entries_agree_m. Qed.
+Theorem C05_junk_agree_any_fuel : forall bs n m body errs q body' errs' q',
+  wf_hash_lines bs = true ->
+  parse_m bs n 0 = Ok (body, errs) q -> parse_runtime_m bs m 0 = Ok (body', errs') q' ->
+  junks body = junks body' /\ errs = errs'.
+Proof. exact RuntimeAgree.junk_agree_m. Qed.
+
+(* get_message / get_term do not depend on the fuel once it suffices: the fact that lets two loops with
+   different iteration counts be compared *)
+Theorem C05_fuel_independent : forall bs n m s p,
+  get_message bs n s p <> Fuel -> get_message bs m s p <> Fuel -> get_message bs n s p = get_message bs m s p.
+Proof. exact RuntimeAgree.get_message_indep. Qed.
+
+(* ---- witnesses (vm_compute on concrete inputs) ---- *)
+(* (entries, messages+terms, junk, errors) of the full parser, then of the runtime parser *)
+Definition C05_summary (s : string) : option ((nat * nat * nat * nat) * (nat * nat * nat * nat)) :=
+  match parse (bytes_of_string s), parse_runtime (bytes_of_string s) with
+  | Done (b, e), Done (b', e') =>
+      Some ((length b, length (messages_terms b), length (junks b), length e),
+            (length b', length (messages_terms b'), length (junks b'), length e'))
+  | _, _ => None
+  end.
+Definition C05_agree (s : string) : Prop :=
+  match parse (bytes_of_string s), parse_runtime (bytes_of_string s) with
+  | Done (b, e), Done (b', e') => map strip_comment (messages_terms b) = messages_terms b'
+  | _, _ => False
+  end.
+
+(* comments of all three levels before, between and after entries; an attached comment; LF and CRLF;
+   every '#' line well formed: Junk and errors agree as well *)
+Definition C05_input_wf : string :=
+  "### resource" ++ String "010" (
+  "## group" ++ String "010" (String "010" (
+  "# attached" ++ String "010" (
+  "foo = Foo" ++ String "010" (
+  "#" ++ String "013" (String "010" (
+  "# two" ++ String "013" (String "010" (
+  "-term = T" ++ String "010" (String "010" (
+  "## between" ++ String "010" (String "010" (String "010" (
+  " junk line" ++ String "010" (
+  "bar = Bar" ++ String "010" (
+  "  .attr = A" ++ String "010" (
+  "### after" ++ String "010" (
+  "# last")))))))))))))))))).
+Example C05_example_wf :
+  wf_hash_lines (bytes_of_string C05_input_wf) = true /\
+  C05_summary C05_input_wf = Some ((9, 3, 1, 1), (4, 3, 1, 1)) /\
+  C05_agree C05_input_wf.
+Proof. vm_compute. repeat split. Qed.
+
+(* malformed '#' lines ("#x", "####", "#" CR at the end): messages and terms still agree, Junk does not *)
+Definition C05_input_malformed : string :=
+  "# ok" ++ String "010" (
+  "#x" ++ String "010" (
+  "  y" ++ String "010" (
+  "foo = 1" ++ String "010" (
+  "####" ++ String "010" (
+  "-t = 2" ++ String "010" (
+  "#" ++ String "013" "")))))).
+Example C05_example_malformed :
+  wf_hash_lines (bytes_of_string C05_input_malformed) = false /\
+  C05_summary C05_input_malformed = Some ((6, 2, 3, 3), (3, 2, 1, 1)) /\
+  C05_agree C05_input_malformed.
+Proof. vm_compute. repeat split. Qed.
+
+(* skip_comment leaves ptr at length + 1 when a comment ends the input without a line end *)
+Example C05_example_overshoot :
+  skip_comment (bytes_of_string "# c") 5 0 = Ok tt 4 /\ length (bytes_of_string "# c") = 3.
+Proof. vm_compute. split; reflexivity. Qed.
+
+(* wf_hash_lines on the boundary cases of the oracle (props/C05.py all_hash_lines_wf) *)
+Example C05_example_wf_cases :
+  map (fun s => wf_hash_lines (bytes_of_string s))
+      ["#"; "###"; "####"; "#x"; "# x"; "##" ++ String "013" (String "010" "a"); "#" ++ String "013" "";
+       "a" ++ String "013" "#x"; "a" ++ String "010" "#x"; " #x"; ""]
+  = [true; true; false; false; true; true; false; true; false; true; true].
+Proof. vm_compute. reflexivity. Qed.
